@@ -46,6 +46,28 @@ func DelV(x string) N     { return N{"dlv(" + x + ")", "(delete " + x + ")"} }
 // DelX is delete (e) for an e that is not a reference (a conditional, a comma expression).
 func DelX(e N) N { return N{"dlx(" + e.SX + ")", "(delete (" + e.JS + "))"} }
 
+// WProto is String.prototype / Number.prototype / Boolean.prototype / Object.prototype (k = the constructor's name).
+func WProto(k string) N { return N{"wp(" + k + ")", k + ".prototype"} }
+
+// AccJS is the accessor descriptor of DefAcc: the getter logs "G<tag>:<receiver>" and returns "v<tag>", the setter
+// logs "S<tag>:<receiver>:<value>"; the receiver is its class and, for a wrapper, the primitive inside.
+func AccJS(tag string) string {
+	recv := `var c = Object.prototype.toString.call(this).slice(8, -1); var r = c + ((c == "String" || c == "Number" || c == "Boolean") ? ":" + this : "");`
+	return `{get: function(){ ` + recv + ` log("G` + tag + `:" + r); return "v` + tag + `"; }, set: function(v){ ` + recv +
+		` log("S` + tag + `:" + r + ":" + (typeof v == "number" ? (v != v ? "nan" : "n" + v) : typeof v == "string" ? "s" + v : typeof v)); }, enumerable: false, configurable: true}`
+}
+
+// DefAcc defines (or redefines) o.p as an accessor property with the logging getter/setter pair `tag`; value: o.
+func DefAcc(o N, p, tag string) N {
+	return N{"dac(" + o.SX + "," + p + "," + tag + ")", "Object.defineProperty(" + o.JS + ", " + strconv.Quote(p) + ", " + AccJS(tag) + ")"}
+}
+
+// OpSet is o.p += e; Incr is o.p++.
+func OpSet(o N, p string, e N) N {
+	return N{"ops(" + o.SX + "," + p + "," + e.SX + ")", "(" + o.JS + "." + p + " += " + e.JS + ")"}
+}
+func Incr(o N, p string) N { return N{"inc(" + o.SX + "," + p + ")", "(" + o.JS + "." + p + "++)"} }
+
 // ProtoOf is Object.getPrototypeOf(e); Regex is the literal /x/.
 func ProtoOf(e N) N { return N{"pro(" + e.SX + ")", "Object.getPrototypeOf(" + e.JS + ")"} }
 func Regex() N      { return N{"rgx", "/x/"} }
